@@ -295,6 +295,10 @@ where
     fn make(p: &[u64]) -> Self::Components;
     fn obs_comps(c: &Self::Components) -> Vec<Obs>;
     fn obs_view(v: &Self::View<'_>) -> Row;
+    fn view_index(v: &Self::View<'_>) -> usize;
+    fn borrow_index(b: &Self::Borrow<'_>) -> usize;
+    /// Observes a returned component struct after a round trip through its tuple conversions.
+    fn comps_roundtrip(c: Self::Components) -> Vec<Obs>;
     fn set_view(v: &mut Self::View<'_>, col: usize, p: u64);
     fn obs_borrow(b: &Self::Borrow<'_>) -> Row;
     fn set_borrow(b: &Self::Borrow<'_>, col: usize, p: u64);
@@ -370,7 +374,14 @@ impl<A: ArchSpec> ArchDyn for A {
             Key::DT(d) => self.destroy(dtyped::<A>(d)),
             Key::DA(d) => self.destroy(d),
         };
-        r.map(|c| A::obs_comps(&c))
+        r.map(|c| {
+            let o = A::obs_comps(&c);
+            let o2 = A::comps_roundtrip(c);
+            if o != o2 {
+                crate::rt::violate("C02", "components-tuple-roundtrip", format!("destroyed components {:?} read {:?} after into_tuple/from", o, o2));
+            }
+            o
+        })
     }
     fn a_contains(&self, key: Key) -> bool {
         match key {
@@ -401,6 +412,8 @@ where
     fn archs() -> &'static [&'static dyn ArchDrv<Self>];
     fn sites() -> &'static [SiteInfo];
     fn with_caps(caps: &[usize]) -> Self;
+    /// `Default::default()` (must be equivalent to `new()` / all-zero capacities)
+    fn fresh_default() -> Self;
     /// Full-column find pinned to archetype `ai` through `ecs_find!` / `ecs_find_borrow!`.
     fn find_full(&mut self, ai: usize, borrow: bool, key: Key, write: Option<(usize, u64)>, byref: bool) -> Option<(Row, Option<EntityDirectAny>)>;
     /// Full-column scan pinned to archetype `ai` through `ecs_iter!` / `ecs_iter_borrow!`.
@@ -583,9 +596,19 @@ where
                 Key::A(_) | Key::DA(_) => self.read(w, RPath::ABorrow, key),
             },
             RPath::AView => {
+                // View::index() is the dense index `resolve` reports
+                let want_idx = self.resolve(w, key);
                 let a = w.archetype_mut::<A>();
+                let chk = |v: &A::View<'_>| {
+                    if Some(A::view_index(v)) != want_idx {
+                        crate::rt::violate("C02", "view-index", format!("View::index() = {} but resolve() = {:?}", A::view_index(v), want_idx));
+                    }
+                };
                 match key {
-                    Key::T(k) => a.view(typed::<A>(k)).map(|v| A::obs_view(&v)),
+                    Key::T(k) => a.view(typed::<A>(k)).map(|v| {
+                        chk(&v);
+                        A::obs_view(&v)
+                    }),
                     Key::TO(k, s) => a.view(typed_overwrite::<A>(k, s)).map(|v| A::obs_view(&v)),
                     Key::A(k) => a.view(k).map(|v| A::obs_view(&v)),
                     Key::DT(d) => a.view(dtyped::<A>(d)).map(|v| A::obs_view(&v)),
@@ -593,9 +616,15 @@ where
                 }
             }
             RPath::ABorrow => {
+                let want_idx = self.resolve(w, key);
                 let a = w.archetype::<A>();
                 match key {
-                    Key::T(k) => a.borrow(typed::<A>(k)).map(|b| A::obs_borrow(&b)),
+                    Key::T(k) => a.borrow(typed::<A>(k)).map(|b| {
+                        if Some(A::borrow_index(&b)) != want_idx {
+                            crate::rt::violate("C02", "borrow-index", format!("Borrow::index() = {} but resolve() = {:?}", A::borrow_index(&b), want_idx));
+                        }
+                        A::obs_borrow(&b)
+                    }),
                     Key::TO(k, s) => a.borrow(typed_overwrite::<A>(k, s)).map(|b| A::obs_borrow(&b)),
                     Key::A(k) => a.borrow(k).map(|b| A::obs_borrow(&b)),
                     Key::DT(d) => a.borrow(dtyped::<A>(d)).map(|b| A::obs_borrow(&b)),
